@@ -45,16 +45,18 @@ func randomCases(tier string) int {
 func (check) Exhaustive(string) bool { return false }
 
 func (check) Rule() string {
-	return "chains of 2-4 correlated trees (operand k+1 = mutation of operand k w.p. 3/4; 3 keys repeated at every depth; nil/{}/[]/primitive/object/list clashes at the same key; w.p. 1/4 per pair an explicit empty list planted in operand k against nil/{}/[] at the same place of operand k+1) merged under one of the 5 global policies (w.p. 1/3 the policy changes from step to step), each operand given as map, interface-keyed map, reflect.StructOf struct, *Config or child Config; w.p. 1/8 a step with the target itself as source is inserted before another step; w.p. 1/3 the very same *Config object of an earlier step is merged once more after at least one other merge; after every step the target is observed by Unpack into map and slice and compared with the merge model, and the empty-list laws (kept / taken) are asserted on the raw unpacked data; plus identity/self-merge/append-length laws; plus (thorough: all, quick: a seed-chosen slice of) pairs of small trees (<=3 nodes below the root, 2 keys) x 5 policies, observed after each of the two merges. Non-trivial = at least two operands are non-empty and share a key or both carry a list; distinct = distinct (policies, operands, representations)."
+	return "chains of 2-4 correlated trees (operand k+1 = mutation of operand k w.p. 3/4; 3 keys repeated at every depth; nil/{}/[]/primitive/object/list clashes at the same key; w.p. 1/4 per pair an explicit empty list planted in operand k against nil/{}/[] at the same place of operand k+1) merged under one of the 5 global policies (w.p. 1/3 the policy changes from step to step), each operand given as map, interface-keyed map, reflect.StructOf struct, *Config or child Config; w.p. 1/8 a step with the target itself as source is inserted before another step; w.p. 1/3 the very same *Config object of an earlier step is merged once more after at least one other merge; after every step the target is observed by Unpack into map and slice and compared with the merge model, and the empty-list laws (kept / taken, through keys and list positions) are asserted on the raw unpacked data; plus identity/self-merge/append-length laws; w.p. 1/4 the chain (strings without '$', half of the time nil/primitive/empty planted over a container of an earlier operand) is repeated with VarExp on and one operand (2/3: the first) holding 1-2 of its non-empty containers by reference ${r<i>} (1/3 through a second reference), compared with the model after every step without the r<i> settings; w.p. 1/6 (other chains) a final merge between two handles of the target (root or Child of a non-empty container reached through keys; nested pairs preferred) under a random policy, expectation: merge of a snapshot of the source, observed through the target handle and the root; plus (thorough: all, quick: a seed-chosen slice of) pairs of small trees (<=3 nodes below the root, 2 keys) x 5 policies, observed after each of the two merges. Non-trivial = at least two operands are non-empty and share a key or both carry a list; distinct = distinct (policies, operands, representations)."
 }
 
 func (check) Assumptions() []string {
 	return []string{
 		"merge model written from the statement of C01 (internal/model/merge.go)",
 		"canonical comparison with the model: numbers by value, nil == {} == [] == absent key inside dictionaries",
-		"in addition, on the raw data: an explicit empty list of the target stays an empty list when the source holds nil, {}, [] or nothing there; an explicit empty list of the source appears where the target held nothing or a primitive. Not compared: nil <- [], {} <- [], presence of nil-valued keys, nodes carrying both parts (decimal keys)",
-		"a *Config source merged a second time must act like the tree it was built from (the model merges that tree again); a step with the target as source is modelled as merging a snapshot of the target",
-		"VarExp off; keys are non-numeric and contain no path separator (C20/C05 cover those)",
+		"in addition, on the raw data: an explicit empty list of the target stays an empty list when the source holds nil, {}, [] or nothing there; an explicit empty list of the source appears where the target held nothing, a primitive or nil (nil is not a container: 'B's value wherever the two sides are not both containers'; 'an empty list in B replaces nothing' speaks about containers of A). Not compared: {} <- [], presence of nil-valued keys, nodes carrying both parts (decimal keys)",
+		"ReplaceValues: the statement describes the dictionaries by their union and the policies by what they do to lists; what ReplaceValues does to dictionaries is taken from the option's documentation - a non-empty dictionary of B replaces the dictionary of A wholesale at every level, an empty B changes nothing",
+		"a *Config source merged a second time must act like the tree it was built from (the model merges that tree again); a source that is the target itself, a part of it or contains it is merged as it is when Merge is called (snapshot)",
+		"references (VarExp) only as a second way to hold a container: a setting ${r} evaluating to an object/list merges like that object/list; everything else about expansion is C02/C08",
+		"keys are non-numeric and contain no path separator (numeric keys are list positions, gaps are filled with nil: C20/C05); lists are short (the cost of growing very long lists is no subject of the statement); how Go values denote a tree (nil pointers, inline fields, typed nil sources) is C05's, Unpack into *Config fields C10's subject",
 	}
 }
 
@@ -236,6 +238,14 @@ func (check) Run(seed int64, tier string, idx int, verbose bool) harness.Result 
 		depth = 5
 	}
 	o := gen.TreeOpts{Depth: depth}
+	// a quarter of the chains is repeated with one operand holding its
+	// containers by reference (VarExp on): no '$' in their strings
+	withRefs := r.Intn(4) == 0
+	if withRefs {
+		o.Prims = noDollar
+	}
+	// the chain ends with a merge between two handles of the target
+	sharedRoot := !withRefs && r.Intn(6) == 0
 	base := r.Intn(len(policies))
 	chain := gen.Chain(r, o, 2+r.Intn(3), depth)
 	ops := make([]operand, len(chain))
@@ -263,6 +273,15 @@ func (check) Run(seed int64, tier string, idx int, verbose bool) harness.Result 
 			res.Ev("planted_emptiness_clashes", 1)
 		}
 	}
+	// chains repeated with references: a later operand says nil (mostly) at
+	// the place of a container of an earlier one
+	if withRefs && r.Intn(2) == 0 {
+		i := r.Intn(len(ops) - 1)
+		j := i + 1 + r.Intn(len(ops)-1-i)
+		if plantOverContainer(r, ops[i].tree, ops[j].tree) {
+			res.Ev("planted_nil_or_other_over_container", 1)
+		}
+	}
 	// the policy may change from step to step
 	if r.Intn(3) == 0 {
 		for i := range ops {
@@ -274,7 +293,7 @@ func (check) Run(seed int64, tier string, idx int, verbose bool) harness.Result 
 	// the target itself as the source of a step that is followed by another
 	// one; half of the time it doubles the lists (append / prepend) and the
 	// next step merges index-wise into the doubled lists
-	if r.Intn(8) == 0 {
+	if !withRefs && r.Intn(8) == 0 {
 		at := 1 + r.Intn(len(ops)-1)
 		self := operand{rep: "self", pol: ops[at].pol, reuse: -1, self: true}
 		if r.Intn(2) == 0 {
@@ -302,7 +321,7 @@ func (check) Run(seed int64, tier string, idx int, verbose bool) harness.Result 
 			ops = append(ops, again)
 		}
 	}
-	runChain(res, r, base, ops, verbose)
+	runChain(res, r, base, ops, withRefs, sharedRoot, verbose)
 	if idx < 2 {
 		res.Sample = describe(ops)
 	}
@@ -325,7 +344,7 @@ func describe(ops []operand) map[string]interface{} {
 	return map[string]interface{}{"operands": l}
 }
 
-func runChain(res *harness.R, r *rand.Rand, base int, ops []operand, verbose bool) {
+func runChain(res *harness.R, r *rand.Rand, base int, ops []operand, withRefs, sharedRoot, verbose bool) {
 	desc := func() string {
 		return fmt.Sprintf("operands (policy/representation:tree)=%v", strings.Join(describe(ops)["operands"].([]string), " ; "))
 	}
@@ -469,6 +488,15 @@ func runChain(res *harness.R, r *rand.Rand, base int, ops []operand, verbose boo
 		res.Key(k.String())
 	}
 	laws(res, policies[base].p, policies[base].opts, ops, desc)
+	if len(res.Violations) > 0 {
+		return
+	}
+	if withRefs {
+		referenceTwin(res, r, ops, trees, desc)
+	}
+	if sharedRoot {
+		sharedRootStep(res, r, c, m, desc)
+	}
 }
 
 // hasNestedMixed reports whether a node below the root carries both parts
